@@ -607,7 +607,18 @@ def plot_generated_lis(ctx, k, cap, single_record=False):
         lrF = LogiRec.LrTableRead(fi)
         fi.seekLr(prs.tellPres)
         lrP = LogiRec.LrTableRead(fi)
-        pl = Plot.PlotReadLIS(lrF, lrP)
+        try:
+            pl = Plot.PlotReadLIS(lrF, lrP)
+        except Exception as e:  # noqa - the FILM / PRES tables are well formed: no plot configuration means no plot
+            rec.mon('lis_produces_plot')
+            rec.case(('genplot', _h(data), 'config'), False, classes=['plot:lis-film', 'plot:raised'] + ['pres:without-' + d for d in m.dropped_columns])
+            if cap['n'] < 20:
+                cap['n'] += 1
+                rec.violation('lis_produces_plot', 'raises', 'reading the FILM and PRES tables of a generated LIS file raised %s: %s (PRES columns dropped: %s)' % (
+                    type(e).__name__, e, m.dropped_columns or 'none'),
+                    {'source': 'generated LIS', 'exception': type(e).__name__, 'message': str(e)[:300], 'dropped_columns': m.dropped_columns,
+                     'curves': [[repr(c.mnem), repr(c.outp), repr(c.trac), repr(c.mode), c.ledg, c.redg] for c in m.curves], 'data_records': -(-len(m.x) // m.frames_per_record)}, exc=e)
+            continue
         if lp.totalFrames != len(m.x):
             raise RuntimeError('generated LIS file not read as written: %d frames, model %d' % (lp.totalFrames, len(m.x)))
         for film in sorted(pl.filmIdS(), key=lambda mm: mm.m):
@@ -616,6 +627,7 @@ def plot_generated_lis(ctx, k, cap, single_record=False):
             curves_here = [c for c in m.curves if fid in c.films(m)]
             classes = ['plot:lis-film', 'film:' + fm.gcod.decode().strip() + '/' + fm.gdec.decode().strip(), 'film:scale-%d' % fm.scale,
                        'plot:up' if m.up else 'plot:down', 'plot:x-units-' + m.x_units.decode().strip()]
+            classes += ['pres:without-' + d for d in getattr(m, 'dropped_columns', [])]
             for c in curves_here:
                 classes.append('curve:mode-' + c.mode.decode('ascii').strip())
                 classes.append('curve:log' if c.log else 'curve:lin')
